@@ -4,7 +4,7 @@ import json
 import os
 import random
 
-from . import common, export, project as P, regcheck
+from . import common, export, project as P, regcheck, regtrace
 
 
 def digest(db):
@@ -152,6 +152,11 @@ def main(tier):
         regcheck.emit_and_replay(rep, bd, "systematic sample of depth-3 transitions (cache-relevant calls)", 3, "cache", "small", every=12,
                                  offset=common.sample_seed(), stats=stats)
     real_db_part(rep, bd, thorough)
+    # direction B: deep interleavings of queries, failing calls and registrations recorded on the code and validated by TLC against
+    # the cache-free reference semantics (MC_RegTrace.tla): an accepted history shows no cache was visible in it
+    hist = regtrace.random_histories(random.Random(common.seed() + 150), 600 if thorough else 120, 80 if thorough else 50, queries=True)
+    regtrace.validate(rep, bd, hist, "seeded deep interleavings of queries, failing calls and registrations", "deep")
+    rep.cov["binding_self_test"] = regtrace.self_test(bd, hist)
     rep.count(evaluations=stats["replayed"], nontrivial=stats["replayed"], traces=stats["replayed"])
     rep.cov["replayed_by_last_op"] = stats["ops"]
     rep.cov["warm_vs_fresh_comparisons"] = stats["fresh"]
